@@ -63,6 +63,7 @@ def strata(tier):
         {"p": "mol", "key": {"prim": 1}, "index": {"prim": 0}}, {"p": "mol", "key": PC.L("key", "equal_to", 0), "index": PC.L("index", "equal_to", 0)},
         {"p": "map", "key": PC.L("key", "equal_to", 3, pre="length")}, {"p": "map", "key": PC.L("key", "equal_to", {"$type": "int"}, pre="dtype")},
         {"p": "map", "label": "L"}, {"p": "list", "label": "L"}, {"p": "mol", "label": "L"}, {"p": "map", "key": {"prim": "a"}, "label": "L"},
+        {"p": "map", "label": ""}, {"p": "mol", "key": {"prim": "a"}, "label": ""}, {"p": "list", "index": {"prim": 0}, "label": ""},
         {"p": "mol", "key": {"prim": 0}, "index": {"prim": 0}, "label": "zero"},
         {"p": "prim", "v": 2.0}, {"p": "prim", "v": 1.0}, {"p": "prim", "v": 0.0}, {"p": "prim", "v": True}, {"p": "prim", "v": "2"},
         {"p": "map", "key": {"prim": 2.0}}, {"p": "map", "key": {"prim": True}},
@@ -97,7 +98,7 @@ def gen(rng, tier):
     if rng.random() < 0.25:
         for part in p["parts"]:
             if part["p"] != "prim" and rng.random() < 0.5:
-                part["label"] = rng.choice(["a", "Label 1"])
+                part["label"] = rng.choice(["a", "Label 1", ""])
     return {"path": p, "via": rng.choice(["api", "spec"]), "probes": [doc, DISTINGUISH if type(doc) is dict else DISTINGUISH_LIST]}
 
 
